@@ -29,6 +29,7 @@ Feature switches (names listed in ``avoid`` are switched off):
   nonint_list_append append()/remove() on a list of floats or strings
   eval_order         side-effecting helper call inside a larger expression (operand order)
   list_reassign_loop re-assigning a global list inside a loop / the main loop (temporary is leaked)
+  fstring_nested_quotes  a string literal with quotes inside an f-string replacement field (PEP 701 nesting)
   double_eval        operand with a side effect (sensor read, helper call) inside a chained comparison,
                      abs(), min() or max() (the firmware evaluates it twice)
 """
@@ -64,6 +65,7 @@ ALL_FEATURES = [
     "nonint_list_append",
     "eval_order",
     "list_reassign_loop",
+    "fstring_nested_quotes",
 ]
 
 # no digits: a digit right after a float field would make "2.50"+"7" vs "2.5"+"7" ambiguous for the
@@ -118,7 +120,11 @@ class ProgGen:
         self.global_lists: Set[str] = set()
         self.len_safe: Set[str] = set()
         self.literal_items: Dict[str, List[int]] = {}
+        self.sensor_budget = 1
         self.in_main = False
+        self.steppers: List[Tuple[str, str]] = []
+        self.cur_depth = 0
+        self.nested_mutated: Set[str] = set()
 
     # ------------------------------------------------------------ utilities
     def fresh(self, prefix: str) -> str:
@@ -136,6 +142,7 @@ class ProgGen:
 
     def emit(self, depth: int, text: str) -> None:
         self.lines.append("    " * depth + text)
+        self.sensor_budget = 1  # a new statement starts
 
     def pick_var(self, env: Dict[str, str], typ: str) -> Optional[str]:
         names = sorted(n for n, t in env.items() if t == typ)
@@ -237,6 +244,11 @@ class ProgGen:
         cands = [n for n, t in env.items() if t in ("pot", "button")]
         if not cands:
             return None
+        if "eval_order" not in self.on:
+            # two side-effecting reads in one statement meet C++'s unspecified operand order
+            if self.sensor_budget <= 0:
+                return None
+            self.sensor_budget -= 1
         n = self.rng.choice(sorted(cands))
         return f"{n}.read()" if env[n] == "pot" else f"{n}.is_pressed()"
 
@@ -245,11 +257,16 @@ class ProgGen:
         lits = ['"abc"', '"hello world"', '""', "[1, 2, 3]", "[4]"]
         if cands and self.chance(0.7):
             n = self.rng.choice(cands)
-            if n in self.mutated_lists and "len_of_mutated" not in self.on:
+            straight_ok = (self.cur_depth == 0 and not self.in_helper and not self.in_main and n in self.literal_items
+                           and n not in self.nested_mutated and n in self.global_lists)
+            if n in self.mutated_lists and "len_of_mutated" not in self.on and not straight_ok:
                 return None
             if "len_of_mutated" not in self.on:
                 # the transpiler folds len(name) from a constant environment that ignores branches and
-                # loops: only names bound once, at top level, to a literal are safe
+                # loops: safe are names bound once, at top level, to a literal - and, when len() itself is
+                # evaluated by straight-line top-level code, literal lists that were only mutated there so far
+                if straight_ok:
+                    return f"len({n})"
                 if n not in self.len_safe:
                     return None
                 self.frozen_len.add(n)
@@ -352,13 +369,11 @@ class ProgGen:
             if c:
                 return c
         if kind == "btn" and not self.in_helper and not no_call:
-            cands = sorted(n for n, t in env.items() if t == "button")
-            if cands:
-                n = r.choice(cands)
-                return r.choice([f"({n}.is_pressed() == 1)", f"({n}.is_pressed() == 0)"])
-            pots = sorted(n for n, t in env.items() if t == "pot")
-            if pots:
-                return f"({r.choice(pots)}.read() {r.choice(['<', '>'])} {r.choice([100, 512, 900])})"
+            sens = self.sensor_expr(env)
+            if sens is not None:
+                if sens.endswith(".is_pressed()"):
+                    return r.choice([f"({sens} == 1)", f"({sens} == 0)"])
+                return f"({sens} {r.choice(['<', '>'])} {r.choice([100, 512, 900])})"
         return f"({self.int_expr(env, depth + 1, no_call=no_call)} {op} {self.int_lit()})"
 
     def str_lit(self, *, allow_empty: bool = True) -> str:
@@ -433,6 +448,11 @@ class ProgGen:
                     parts.append("{" + v + "}")
                 else:
                     parts.append("{" + self.expr(env, typ, depth + 2, no_call=no_call) + "}")
+        if "fstring_nested_quotes" not in self.on:
+            parts = [p for p in parts if not (p.startswith("{") and any(c in p for c in "\"'\\"))]
+        else:
+            if any(p.startswith("{") and '"' in p for p in parts):
+                self.features_used.add("fstring_nested_quotes")
         body = "".join(parts)
         if not body or body.startswith("@"):
             body = "v=" + body
@@ -589,7 +609,7 @@ class ProgGen:
                 self.emit(depth, f"{name} = [{body} for i in range({n})]")
             elif elem == "int" and self.chance(0.4):
                 n = r.choice([1, 1, 2, 3, 4, 4])
-                pool = [r.randint(0, 40) for _ in range(r.choice([1, 2, n]))]
+                pool = [r.choice([0, 0, r.randint(0, 40)]) for _ in range(r.choice([1, 2, n]))]
                 values = [r.choice(pool) for _ in range(n)]
                 self.emit(depth, f"{name} = [{', '.join(str(v) for v in values)}]")
                 self.literal_items[name] = values
@@ -617,8 +637,13 @@ class ProgGen:
             # element is always present: remove it (possibly emptying the list) and put it back
             v = r.choice(self.literal_items[name])
             self.emit(depth, f"{name}.remove({v})")
+            if depth == 0 and not self.in_main and not self.in_helper and self.chance(0.5) and "mon" in env and self.list_len.get(name, 0) > 1 and name not in self.nested_mutated:
+                # straight-line top-level code: the transpile-time length is exact here
+                self.emit(depth, f"mon.write({name}[len({name}) - 1])")
             self.emit(depth, f"{name}.append({v})")
             self.mutated_lists.add(name)
+            if depth > 0 or self.in_main or self.in_helper:
+                self.nested_mutated.add(name)
             self.probe(depth, env, [name])
             return
         if kind in ("append", "append_remove") and not frozen and (elem == "int" or self.feature("nonint_list_append", 0.5)):
@@ -630,6 +655,8 @@ class ProgGen:
                 val = repr("zz" + str(r.randint(0, 9)))
             self.emit(depth, f"{name}.append({val})")
             self.mutated_lists.add(name)
+            if depth > 0 or self.in_main or self.in_helper:
+                self.nested_mutated.add(name)
             if kind == "append_remove":
                 self.emit(depth, f"mon.write({name}[-1])" if "mon" in env else "pass")
                 self.emit(depth, f"{name}.remove({val})")
@@ -674,7 +701,10 @@ class ProgGen:
             return
         if self.opts.use_sleep:
             if self.chance(0.5):
-                self.emit(depth, f"sleep({r.choice([0, 1, 2, 5, 10, 25])})")
+                from dst.gen.constexpr import const_int_expr
+
+                ms = r.choice([0, 1, 2, 5, 10, 25])
+                self.emit(depth, f"sleep({const_int_expr(r, ms) if self.chance(0.5) else ms})")
             else:
                 self.emit(depth, f"sleep(abs({self.int_expr(env, 1, no_call=True)}) % 20)")
 
@@ -731,6 +761,10 @@ class ProgGen:
         i = self.fresh("k")
         if self.chance(0.5):
             limit = str(r.randint(0, 4))
+            if self.chance(0.4):
+                from dst.gen.constexpr import const_int_expr
+
+                limit = const_int_expr(r, int(limit))
         elif self.feature("range_bound_mutation", 0.5):
             # the bound mentions names the body may change: Python evaluates range() once
             limit = f"(abs({self.int_expr(env, 2, no_call=True)}) % 5)"
@@ -859,6 +893,7 @@ class ProgGen:
         r = self.rng
         made = 0
         for _ in range(count):
+            self.cur_depth = depth
             if self.budget <= 0 and made > 0:
                 break
             self.budget -= 1
@@ -874,6 +909,10 @@ class ProgGen:
             if nested_ok:
                 kinds += ["if", "while", "for"]
                 weights += [4, 2, 3]
+            if self.steppers and not self.in_helper:
+                kinds.append("busy"); weights.append(2)
+            if depth == 0 and self.opts.use_lists and not self.in_helper and not self.in_main:
+                kinds.append("list_straight"); weights.append(2)
             if ctx.get("in_loop"):
                 kinds.append("brk"); weights.append(2)
             if self.helpers and not self.in_helper:
@@ -903,6 +942,10 @@ class ProgGen:
                 self.stmt_call(depth, env)
             elif kind == "try":
                 self.stmt_try(depth, env, ctx)
+            elif kind == "busy":
+                self.stmt_busy_wait(depth, env)
+            elif kind == "list_straight":
+                self.stmt_list_straight(depth, env)
             elif kind == "hoist_if":
                 self.stmt_hoist_if(depth, env)
             elif kind == "hoist_loop":
@@ -967,6 +1010,22 @@ class ProgGen:
                 self.emit(1, f"mon.write({lname})")
         if writable is not None:
             self.emit(1, f"{writable} = (abs({writable}) + {r.randint(1, 3)}) % 50")
+        if ret != "void" and self.chance(0.35):
+            # a local that gets its value in both arms of an if/else (hoisted by the transpiler); the name comes
+            # from a small pool so that different helpers reuse it with different types
+            local = r.choice(["out", "res", "val", "acc"])
+            if local not in body_env and local not in genv:
+                self.emit(1, f"if {self.bool_expr(body_env, 1, no_call=True)}:")
+                self.emit(2, f"{local} = {self.expr(body_env, ret, 1, no_call=True)}")
+                self.emit(1, "else:")
+                self.emit(2, f"{local} = {self.expr(body_env, ret, 1, no_call=True)}")
+                self.emit(1, f"return {local}")
+                self.in_helper = False
+                self.budget = saved_budget
+                self.len_safe = saved_len_safe
+                self.frozen_len = saved_frozen
+                self.helpers.append(Helper(name, params, ret, pure))
+                return
         if ret == "void":
             if "mon" in body_env:
                 self.emit(1, f"mon.write({self.str_expr(body_env, 1, no_call=True)})")
@@ -989,6 +1048,66 @@ class ProgGen:
         self.frozen_len = saved_frozen
         self.helpers.append(Helper(name, params, ret, pure))
         _ = protected
+
+    def stmt_list_straight(self, depth: int, env) -> None:
+        """Straight-line top-level list bookkeeping: the transpiler's tracked length must stay exact."""
+
+        r = self.rng
+        name = self.fresh("xs")
+        n = r.randint(2, 5)
+        pool = [r.choice([0, 0, 1, r.randint(2, 40)]) for _ in range(r.choice([1, 2, n]))]
+        values = [r.choice(pool) for _ in range(n)]
+        self.emit(depth, f"{name} = [{', '.join(str(v) for v in values)}]")
+        env[name] = "list"
+        self.list_elem[name] = "int"
+        self.literal_items[name] = list(values)
+        self.global_lists.add(name)
+        self.len_safe.discard(name)
+        current = list(values)
+        for _ in range(r.randint(1, 4)):
+            op = r.choice(["remove", "remove", "append", "probe"])
+            if op == "remove" and len(current) > 1:
+                v = r.choice(current)
+                current.remove(v)
+                self.emit(depth, f"{name}.remove({v})")
+            elif op == "append":
+                v = r.choice([0, 1, r.randint(2, 40)])
+                current.append(v)
+                self.emit(depth, f"{name}.append({v})")
+            if "mon" in env:
+                self.emit(depth, f"mon.write(len({name}))")
+                self.emit(depth, f"mon.write({name}[len({name}) - 1])")
+        # from here on the list is treated like any other mutated list with a known minimal length
+        self.list_len[name] = len(current)
+        self.literal_items[name] = list(current)
+        self.mutated_lists.add(name)
+
+    def gen_stepper(self, genv) -> None:
+        """A helper with a side effect, for `while step() < k: pass` busy-wait loops."""
+
+        counter = self.fresh("c")
+        fname = self.fresh("step")
+        self.emit(0, f"{counter} = 0")
+        genv[counter] = "int"
+        self.readonly.add(counter)
+        self.emit(0, f"def {fname}():")
+        self.emit(1, f"global {counter}")
+        self.emit(1, f"{counter} = {counter} + 1")
+        self.emit(1, f"return {counter}")
+        self.steppers.append((fname, counter))
+
+    def stmt_busy_wait(self, depth: int, env) -> None:
+        fname, counter = self.rng.choice(self.steppers)
+        bound = self.rng.randint(1, 6)
+        self.emit(depth, f"while {fname}() < {bound}:")
+        filler = self.rng.choice(["pass", "pass", "# wait", 'print("waiting")'])
+        if filler.startswith("#"):
+            self.emit(depth + 1, filler)
+            self.emit(depth + 1, "pass")
+        else:
+            self.emit(depth + 1, filler)
+        if "mon" in env:
+            self.emit(depth, f"mon.write({counter})")
 
     # ------------------------------------------------------------ whole program
     def generate(self) -> str:
@@ -1022,9 +1141,14 @@ class ProgGen:
             name = self.fresh({"int": "g", "float": "h", "bool": "c", "str": "w"}[typ])
             self.emit(0, f"{name} = {self.expr({k: v for k, v in env.items() if v in ('int', 'float', 'bool', 'str')}, typ, 2, no_call=True)}")
             env[name] = typ
+        if o.use_helpers and self.chance(0.4):
+            # a name hoisted out of a top-level if/else *before* the helper definitions
+            self.stmt_hoist_if(0, env)
         if o.use_helpers:
             for _ in range(r.choice([0, 1, 1, 2, 3])):
                 self.gen_helper(env)
+            if self.chance(0.35):
+                self.gen_stepper(env)
         # every helper is called at least once (an uncalled helper keeps default-typed parameters)
         for h in self.helpers:
             args = [self.expr(env, t, 2, no_call=True) for _n, t in h.params]
